@@ -81,7 +81,7 @@ type Explorer struct {
 	pos     int
 	trace   []decision
 	pc      []*Term
-	model   Model // a model of pc, or nil if unknown
+	model   *Model // a model of pc, or nil if unknown
 	steps   int
 	nondets map[string]int   // name -> occurrence count
 	vars    []*Term          // nondet variables created on this path (in order)
@@ -89,7 +89,7 @@ type Explorer struct {
 	events  []string         // check/reach sites hit, in order
 	pools   map[*value]*poolState
 	extra   map[string]any // per-path scratch for intrinsics
-	lastModel   Model
+	lastModel   *Model
 	wantWitness []string
 	choices     map[string]int
 	varKinds    map[string]types.BasicKind
@@ -167,7 +167,7 @@ func (e *Explorer) resetPath(prefix []decision) {
 	e.pos = 0
 	e.trace = e.trace[:0]
 	e.pc = e.pc[:0]
-	e.model = Model{}
+	e.model = NewModel()
 	e.steps = 0
 	e.nondets = map[string]int{}
 	e.vars = nil
@@ -181,6 +181,9 @@ func (e *Explorer) resetPath(prefix []decision) {
 	e.mutexes = nil
 	e.onceWaiters = nil
 	e.havocSeq = 0
+	if liaMode {
+		resetLIAPath()
+	}
 }
 
 // Explore runs all paths of the harness.  run executes the harness once and
@@ -274,14 +277,19 @@ func (e *Explorer) fork(alt decision) {
 	e.pending = append(e.pending, p)
 }
 
+func (e *Explorer) pushPC(t *Term) {
+	e.pc = append(e.pc, t)
+	if liaMode {
+		refineRange(t)
+	}
+}
+
 func (e *Explorer) addPC(t *Term) {
 	if isTrue(t) {
 		return
 	}
-	e.pc = append(e.pc, t)
-	if e.model != nil && !liaMode && !e.model.EvalBool(t) {
-		e.model = nil
-	} else if liaMode {
+	e.pushPC(t)
+	if e.model != nil && !e.model.EvalBool(t) {
 		e.model = nil
 	}
 }
@@ -326,8 +334,8 @@ func (e *Explorer) Branch(c *Term) bool {
 	}
 	nc := mkNot(c)
 	var canT, canF bool
-	var mT, mF Model
-	if e.model != nil && !liaMode {
+	var mT, mF *Model
+	if e.model != nil {
 		if e.model.EvalBool(c) {
 			canT, mT = true, e.model
 		} else {
@@ -351,17 +359,17 @@ func (e *Explorer) Branch(c *Term) bool {
 	case canT && canF:
 		e.fork(decision{0, 'b'})
 		e.record(decision{1, 'b'})
-		e.pc = append(e.pc, c)
+		e.pushPC(c)
 		e.model = mT
 		return true
 	case canT:
 		e.record(decision{1, 'b'})
-		e.pc = append(e.pc, c)
+		e.pushPC(c)
 		e.model = mT
 		return true
 	default:
 		e.record(decision{0, 'b'})
-		e.pc = append(e.pc, nc)
+		e.pushPC(nc)
 		e.model = mF
 		return false
 	}
@@ -382,14 +390,14 @@ func (e *Explorer) Concretize(t *Term) uint64 {
 		return d.val
 	}
 	var vals []uint64
-	var models []Model
+	var models []*Model
 	var excl []*Term
 	for {
 		if len(vals) > e.Lim.MaxConcretize {
 			panic(pathAbort{abortBound, fmt.Sprintf("more than %d feasible values when concretising %s", e.Lim.MaxConcretize, t)})
 		}
-		var m Model
-		if len(vals) == 0 && e.model != nil && !liaMode {
+		var m *Model
+		if len(vals) == 0 && e.model != nil {
 			m = e.model
 		} else {
 			if e.sat(excl...) != Sat {
@@ -416,7 +424,7 @@ func (e *Explorer) Concretize(t *Term) uint64 {
 	}
 	first := idx[0]
 	e.record(decision{vals[first], 'c'})
-	e.pc = append(e.pc, mkEq(t, mkConst(t.sort, vals[first])))
+	e.pushPC(mkEq(t, mkConst(t.sort, vals[first])))
 	e.model = models[first]
 	return vals[first]
 }
@@ -454,14 +462,14 @@ func (e *Explorer) Assume(c *Term) {
 		e.addPC(c)
 		return
 	}
-	if e.model != nil && !liaMode && e.model.EvalBool(c) {
-		e.pc = append(e.pc, c)
+	if e.model != nil && e.model.EvalBool(c) {
+		e.pushPC(c)
 		return
 	}
 	if e.sat(c) != Sat {
 		panic(pathAbort{abortInfeasible, "assume"})
 	}
-	e.pc = append(e.pc, c)
+	e.pushPC(c)
 	e.model = e.lastModel
 }
 
@@ -499,7 +507,7 @@ func (e *Explorer) Check(c *Term, site string) {
 		if isFalse(c) || e.sat(c) != Sat {
 			panic(pathAbort{abortDone, "check failed on every input of this path"})
 		}
-		e.pc = append(e.pc, c)
+		e.pushPC(c)
 		e.model = e.lastModel
 		return
 	}
@@ -510,7 +518,7 @@ func (e *Explorer) Check(c *Term, site string) {
 	e.addPC(c)
 }
 
-func (e *Explorer) violation(msg string, m Model) {
+func (e *Explorer) violation(msg string, m *Model) {
 	if m == nil {
 		if e.model != nil {
 			m = e.model
@@ -536,16 +544,16 @@ func (e *Explorer) violation(msg string, m Model) {
 
 // exportModel turns a solver model into the JSON model consumed by the
 // native replay runtime: scalar nondets by name, byte strings as arrays.
-func (e *Explorer) exportModel(m Model) map[string]any {
+func (e *Explorer) exportModel(m *Model) map[string]any {
 	out := map[string]any{}
 	if m == nil {
-		m = Model{}
+		m = NewModel()
 	}
 	for _, v := range e.vars {
 		if strings.Contains(v.name, "[") {
 			continue
 		}
-		val := m[v.name]
+		val := m.Eval(v)
 		switch {
 		case v.sort.W == 0:
 			out[v.name] = val != 0
@@ -556,7 +564,7 @@ func (e *Explorer) exportModel(m Model) map[string]any {
 	for name, n := range e.varLens {
 		arr := make([]int, n)
 		for i := 0; i < n; i++ {
-			arr[i] = int(m[fmt.Sprintf("%s[%d]", name, i)])
+			arr[i] = int(m.Eval(mkVar(fmt.Sprintf("%s[%d]", name, i), sortOfKind(types.Uint8))))
 		}
 		out[name] = arr
 	}
